@@ -147,7 +147,22 @@ func cmdCheck(args []string) {
 		timeout = 60
 	}
 	solveT := time.Now()
-	solveAll(units, filter, timeout, thorough, *dump)
+	// obligations deliberately not claimed are not attempted in the quick tier (they would only burn the time-outs)
+	var undecRes []*regexp.Regexp
+	for p := range spec.Undecided {
+		undecRes = append(undecRes, regexp.MustCompile(p))
+	}
+	solveFilter := func(o *Oblig) bool {
+		if !filter(o) {
+			return false
+		}
+		if !thorough && matchAny(undecRes, o.name) {
+			o.Status = "not-attempted"
+			return false
+		}
+		return true
+	}
+	solveAll(units, solveFilter, timeout, thorough, *dump)
 	solveSecs := time.Since(solveT).Seconds()
 
 	var kf KnownFindings
@@ -181,6 +196,7 @@ func cmdCheck(args []string) {
 	imprecise := map[string]int{}
 	newLedger := Ledger{Property: *prop, Functions: map[string]string{}}
 	solverTime := 0.0
+	secsByFunc := map[string]float64{}
 	exit := 0
 	var slow []string
 	const slowThreshold = 3.0
@@ -211,6 +227,7 @@ func cmdCheck(args []string) {
 				continue
 			}
 			solverTime += o.Seconds
+			secsByFunc[ukey] += o.Seconds
 			isUndecided := ""
 			for _, ud := range undecided {
 				if ud.re.MatchString(o.name) {
@@ -392,6 +409,7 @@ func cmdCheck(args []string) {
 			"undecided_new":            newUndecided,
 			"tool_errors":              toolErrors,
 			"slow_obligations":         slow,
+			"solver_seconds_by_function": secsByFunc,
 			"samples":                  samples,
 			"repo_head":                strings.Split(before, "|")[0],
 			"note":                     spec.Note,
